@@ -149,8 +149,25 @@ def extra(rng, tier):
     # (b) flag on vs off on in-range queries: exact at Q, bitwise at f64
     pairs = []
     for _ in range(reps):
-        S = rng.choice(["Q", "F"])
+        S = rng.choice(["Q", "F", "G"])
         kind = rng.choice(["lin", "spl", "bil"])
+        if S == "G":
+            # f32 elements (seed C06-r11m1: the extrapolating spline evaluating its segments in f64 — a no-op for f64 data)
+            kind = rng.choice(["lin", "spl", "spl"])
+            r32 = vlib.f32_round
+            shape, xs, flat = gen_1d(rng, "F", kind == "spl")
+            xs, flat = [r32(x) for x in xs], [r32(v) for v in flat]
+            if any(a >= b for a, b in zip(xs, xs[1:])):
+                continue
+            L = gen.lanes_of(shape)
+            qs = [r32(q) for q in gen.queries_f(rng, xs, 8, special=False)]
+            qs = [q for q in qs if xs[0] <= q <= xs[-1]] + [xs[0], xs[-1], vlib.next_up32(xs[0]), vlib.next_down32(xs[-1])]
+            st0 = ("lin", False) if kind == "lin" else spline_strat(rng, "F", False, L, shape[1:])
+            for ext in (False, True):
+                st = (st0[0], ext) + tuple(st0[2:])
+                lines.append(i1_line(S, xs, shape, flat, st, e_array(S, [len(qs)], qs)))
+            pairs.append(len(lines) - 2)
+            continue
         if kind == "bil":
             shape, defx, defy, xs, ys, flat = c04.gen_grid(rng, S)
             qx, qy = c04.queries2(rng, xs, ys, 6, S)
